@@ -96,6 +96,9 @@ func (r *XDSResolver) getEndpoints(ctx context.Context, desc string) ([]*xdsreso
 	for _, locality := range endpoints.Localities {
 		eps = append(eps, locality.Endpoints...)
 	}
+	if len(eps) == 0 {
+		return nil, fmt.Errorf("no endpoints for cluster: %s", desc)
+	}
 	return eps, nil
 }
 
